@@ -1,0 +1,12 @@
+//! Verification hooks. Compiled only with `--cfg datadog_dd_native_iast_rewriter_js_verif`.
+//! Re-exports the crate-private entry points so that an external harness can drive the
+//! real rewriter natively. Nothing here changes behaviour.
+pub use crate::lib_wasm::verif::*;
+pub use crate::rewriter::{
+    generate_prefix_stmts, print_js, rewrite_js, Config, OriginalSourceMap, RewrittenOutput,
+};
+pub use crate::telemetry::{Telemetry, TelemetryVerbosity};
+pub use crate::transform::transform_status::{Status, TransformStatus};
+pub use crate::util::{file_name, parse_source_map, rnd_string, DefaultFileReader, FileReader};
+pub use crate::visitor::csi_methods::{CsiMethod, CsiMethods};
+pub use crate::visitor::literal_visitor::{LiteralInfo, LiteralLocation, LiteralsResult};
